@@ -23,7 +23,7 @@ EXTENDS Naturals, Sequences, FiniteSets, TLC, Json
 CONSTANTS MaxRestarts,   \* Fastly: a request may be restarted at most 3 times
           MaxReq,        \* requests per simulator history
           Urls,          \* request URLs = cache keys (vcl_hash keeps the default)
-          Statuses,      \* status the stub backend answers with: 200 cacheable, 500 not
+          Statuses,      \* what the stub origin answers: HTTP status code + 1000 * freshness-header variant (below)
           DefinedChoices,\* sets of lifecycle subroutines the program defines (an absent one takes its default action)
           JailChoices,   \* what a request does to the penalty box: "no", "long" (10 minutes), "short" (ShortTTL ticks)
           LookChoices,   \* does a request look whether the client is in the penalty box (subset of BOOLEAN)
@@ -159,9 +159,18 @@ PushK(l, x) == IF KCover = 0 THEN <<>> ELSE IF Len(l) < KCover THEN Append(l, x)
 
 (* updateCache(): called at the end of ProcessFetch whatever path led there *)
 (* (also on the pass path - a named deviation from Fastly, see DESIGN C06). *)
-Cacheable(st) == st \in {200, 203, 300, 301, 302, 404, 410}
+(* The origin's answer is a status code plus a variant of its freshness headers (one directive per header):   *)
+(*   0 Cache-Control: max-age=100     1 Cache-Control: max-age=0        2 Cache-Control: s-maxage=0           *)
+(*   3 Surrogate-Control: max-age=100 + Cache-Control: max-age=0 (Surrogate-Control wins)                     *)
+(*   4 no freshness header (default lifetime)                           5 Cache-Control: s-maxage=100         *)
+(* Fastly stores a response iff its status is in the cacheable list and its lifetime is positive.            *)
+Code(st) == st % 1000
+Variant(st) == st \div 1000
+Cacheable(st) == Code(st) \in {200, 203, 300, 301, 302, 404, 410}
+TTLPositive(st) == Variant(st) \notin {1, 2}
 StoreAfterFetch(c, u, st, t0, unc, short) ==
-  IF Cacheable(st) /\ ~unc /\ ~t0 THEN [c EXCEPT ![u] = (IF short THEN "timed" ELSE "fresh")] ELSE c
+  \* an explicit `set beresp.ttl` in vcl_fetch (short / t0) overrides the lifetime the headers gave
+  IF Cacheable(st) /\ ~unc /\ ~t0 /\ (short \/ TTLPositive(st)) THEN [c EXCEPT ![u] = (IF short THEN "timed" ELSE "fresh")] ELSE c
 
 (* One subroutine runs and chooses behaviour b.  `logged` says whether the  *)
 (* subroutine is defined (an absent one leaves no flow entry and takes its  *)
